@@ -31,6 +31,13 @@ def worker(prop, bdir, variant, lo, hi, profile_kw, oracle_names, salt, plan_fn=
                 h = hist_class(profile_kw)(b, rng, res, prof, oracle_classes=ocs, label=label)
                 h.run()
                 break
+            except qsim.DaemonBlocked as e:
+                res.violate("C16/daemon-blocked-outside-select", str(e), h.witness() if h is not None else {"history": label})
+                try:
+                    h.sim.teardown()
+                except Exception:
+                    pass
+                break
             except qsim.SimTimeout as e:
                 if attempt == 1:
                     res.inconclusive.append("history %s: %s" % (label, str(e)[:300]))
